@@ -694,7 +694,14 @@ class CtxAwareTransformer(NodeTransformer):
         ups = set()
         for targ in node.targets:
             if isinstance(targ, Tuple | List):
-                ups.update(leftmostname(elt) for elt in targ.elts)
+                elts = list(targ.elts)
+                while elts:
+                    elt = elts.pop()
+                    if isinstance(elt, Tuple | List):
+                        # nested unpacking: ``a, (b, c) = ...`` binds b and c
+                        elts.extend(elt.elts)
+                    else:
+                        ups.add(leftmostname(elt))
             elif isinstance(targ, BinOp):
                 newnode = self.try_subproc_toks(node)
                 if newnode is node:
